@@ -207,6 +207,10 @@ func c12RunHistory(mk func() schema.Type, calls []*sx.Node, probes []*sx.Node, c
 	s := mk()
 	state0 := c12State(s)
 	desc0, desc := c12Desc(s), "same"
+	// the unit caches (c12_units.go): expected content of every cell from a separate fresh instance; the used
+	// instance is looked at (passively) after every call, rejected ones included
+	unitsExp := c12UnitsExpected(mk())
+	unitsOK := c12UnitsCoherent(s, unitsExp)
 	var out []*sx.Node
 	unstable := map[string]bool{} // calls whose own repetitions disagreed: nothing to compare later
 	for _, o := range calls {
@@ -243,6 +247,7 @@ func c12RunHistory(mk func() schema.Type, calls []*sx.Node, probes []*sx.Node, c
 		if desc == "same" && c12Desc(s) != desc0 {
 			desc = "changed"
 		}
+		unitsOK = unitsOK && c12UnitsCoherent(s, unitsExp)
 	}
 	fresh := mk()
 	if c12Desc(fresh) != desc0 {
@@ -252,7 +257,6 @@ func c12RunHistory(mk func() schema.Type, calls []*sx.Node, probes []*sx.Node, c
 	if c12State(s) != state0 || c12State(s) != c12State(fresh) {
 		st = "changed"
 	}
-	out = append(out, sx.L(sx.A("state"), sx.A(st)))
 	after := "same"
 	for _, o := range append(append([]*sx.Node{}, calls...), probes...) {
 		if unstable[o.String()] {
@@ -275,6 +279,21 @@ func c12RunHistory(mk func() schema.Type, calls []*sx.Node, probes []*sx.Node, c
 		if !common {
 			after = "differs"
 		}
+		// ... and once on an instance that has seen NOTHING - not even the earlier calls of this loop (a rejected call
+		// among them that spoils the instance spoils `fresh` in the same way, and the two then agree again)
+		{
+			a, _ := c12Eval(mk(), o)
+			if !used[a] {
+				again := false
+				for i := 0; i < c12Reps && !again; i++ {
+					b, _ := c12Eval(s, o)
+					again = b == a
+				}
+				if !again {
+					after = "differs"
+				}
+			}
+		}
 		if mkLit != nil {
 			// first use of an instance whose caches are still empty (one instance per call: nothing came before)
 			lit := mkLit()
@@ -291,6 +310,14 @@ func c12RunHistory(mk func() schema.Type, calls []*sx.Node, probes []*sx.Node, c
 			}
 		}
 	}
+	// the public face of the unit caches: the Format functions of every units definition, used vs untouched instance
+	if c12UnitsFormat(s) != c12UnitsFormat(mk()) {
+		after = "differs"
+	}
+	if !unitsOK || !c12UnitsCoherent(s, unitsExp) || !c12UnitsCoherent(fresh, unitsExp) {
+		st = "changed"
+	}
+	out = append(out, sx.L(sx.A("state"), sx.A(st)))
 	out = append(out, sx.L(sx.A("after"), sx.A(after)))
 	// ... and after the probes (the empty map leaves every property unset: the rejections of the presence rules)
 	if c12Desc(s) != desc0 || c12Desc(fresh) != desc0 {
@@ -856,6 +883,13 @@ func init() {
 				}
 				emit(c12Case(sc, calls))
 			}
+			// unit-bearing FLOAT / integer schemas with histories "rejected text, then multi-term texts whose exact sum is
+			// not a float64" (c12_units.go); at the end: the streams above stay as they were
+			nUnits := 36
+			if tier == "thorough" {
+				nUnits = 600
+			}
+			c12UnitCases(r, nUnits, emit)
 		}),
 		Run: func(p *sx.Node) *sx.Node {
 			mk := func() schema.Type { return buildWithEnv(p.List[1], p.List[2]) }
